@@ -90,7 +90,8 @@ def run(ctx, dis=True):
     loader_no_panic(ctx, q)
     # every generated typed decoder request from MIR (arithmetic on the offset around a failing word request included)
     import c11
-    ctx.extra["typed_requests_decided_from_mir"] = c11.typed_requests_mir(ctx)
+    import common as _common
+    ctx.extra["typed_requests_decided_from_mir"] = _common.composed(ctx, "C11-typed-requests", lambda: c11.typed_requests_mir(ctx))
     assemble_index(ctx, q, S)
     disas_constant(ctx, q, S, rp)
     literal_rendering(ctx, q, S, rp)
